@@ -944,8 +944,8 @@ func (P *Prog) checkBalance(r *Result, rule string) {
 	delta := map[*ssa.Function]int{}
 	type result struct {
 		problem, ppos string
-		exit        int
-		has         bool
+		exit          int
+		has           bool
 	}
 	analyse := func(fn *ssa.Function, strict bool) result {
 		var res result
